@@ -86,6 +86,14 @@ let () =
         | "sdmax" :: _ -> Some (OSdMax (zi 1))
         | "sdgetmax" :: _ -> Some OSdGetMax
         | "sdnopen" :: _ -> Some OSdNOpen
+        | "seekat" :: _ -> Some (OSeekAt (zi 1, zi 2, zi 3, zi 4, zi 5, zi 6))
+        | "chunkfill" :: _ -> Some (OChunkFill (zi 1, zi 2, zi 3))
+        | "fn_vshdrlen" :: _ ->
+            let ((_, v), _) = !st in
+            (match (try List.nth_opt v.vss (i 1) with _ -> None) with
+             | Some s when s.s_stored -> m := Printf.sprintf "ok %d" (iz (m_vpackvs_size s.s_fnames s.s_name s.s_class))
+             | _ -> ());
+            Some OOther
         | "fn_getdiskblock" :: _ -> m := show_m (m_getdiskblock (zi 1) (zi 2)); Some OOther
         | "fn_vinsertpair" :: _ -> m := show_m (m_vinsertpair (zi 1)); Some OOther
         | "fn_endoff" :: _ ->
@@ -126,6 +134,17 @@ let () =
                       | (Some _, e) -> m := Printf.sprintf "ok %d %d %d %d" (iz n) (iz n) (iz n) (iz e)
                       | (None, e) -> m := Printf.sprintf "fail 0 -1 %d" (iz e)))
             | _ -> ())
+       | Some (OSeekAt (tag, rf, app, origin, offset, pos0)) when h.h_known ->
+           (match find_elem h tag rf with
+            | Some e when iz e.e_len >= 0 && iz pos0 >= 0 && iz pos0 <= iz e.e_len ->
+                (match m_hseek (iz app <> 0) origin offset pos0 e.e_len with
+                 | Some p -> m := Printf.sprintf "ok %d" (iz p)
+                 | None -> m := Printf.sprintf "fail %d" (iz pos0))
+            | _ -> ())
+       | Some (OChunkFill (_, _, k)) ->
+           let r1 = m_chunk_ref (z (iz k + 1)) in
+           let r2 = m_chunk_ref (z (iz k + (if r1 = None then 1 else 2))) in
+           m := Printf.sprintf "ok %d" (if r1 <> None && r2 <> None then 1 else 0)
        | Some (OVgAdd (slot, _, _, n)) ->
            (match get_vg v slot with
             | Some (_, g) ->
